@@ -4,6 +4,7 @@
   rendering parses back to exactly that tree.
 -/
 import SonicSpec.Proofs.EncLeaf
+import SonicSpec.Proofs.EncNumBridge
 namespace SonicSpec.Enc
 open SonicSpec SonicSpec.Json SonicSpec.Go
 
@@ -84,8 +85,8 @@ theorem quotedLeaf_wf {o : EncOpts} {t : GoType} {v : GoVal} {j : JVal} (h : quo
     split <;> exact plain_ok (by decide)
   · injection h with h; subst h; simpa [JWF] using numShape_strOK (intDec_shape _)
   · injection h with h; subst h; simpa [JWF] using numShape_strOK (natDec_shape _)
-  · exact floatStr_wf (fun x hx => fmtF64_shape hx) h
-  · exact floatStr_wf (fun x hx => fmtF32_shape hx) h
+  · exact floatStr_wf (fun x hx => numFmtF64_shape hx) h
+  · exact floatStr_wf (fun x hx => numFmtF32_shape hx) h
   · exact numberStr_wf h
   · injection h with h; subst h; simpa [JWF] using quoteBody_ok _ _ _
   · cases h
@@ -210,8 +211,8 @@ theorem enc_wf (o : EncOpts) :
   case case1 => enc_ok; trivial
   case case2 => enc_ok; simpa [JWF] using intDec_shape _
   case case3 => enc_ok; simpa [JWF] using natDec_shape _
-  case case4 => enc_simp; exact floatVal_wf (fun x hx => fmtF64_shape hx) h
-  case case5 => enc_simp; exact floatVal_wf (fun x hx => fmtF32_shape hx) h
+  case case4 => enc_simp; exact floatVal_wf (fun x hx => numFmtF64_shape hx) h
+  case case5 => enc_simp; exact floatVal_wf (fun x hx => numFmtF32_shape hx) h
   case case6 => enc_ok; exact strVal_wf _ _
   case case7 => enc_simp; exact numberVal_wf h
   case case8 => enc_ok; exact nilSlice_wf _
